@@ -407,6 +407,9 @@ def plan(ctx, patch=None, small=False):
     jobs.append(("char", "fixed", 23, "plain", OPS, sample, seed, patch, None))
     jobs.append(("char", "fixed", 23, "enc", WRITE_OPS + READ_OPS[:2], sample, seed, patch, None))
     jobs.append(("desc", "fixed", 23, "plain", WRITE_OPS + READ_OPS[:2], sample, seed, patch, None))
+    # an enhanced bearer on a plain / merely encrypted link: the bearer kind changes nothing about the link's security
+    jobs.append(("raw", "eatt", 64, "plain", OPS, sample, seed, patch, None))
+    jobs.append(("raw", "eatt", 64, "enc", READ_OPS[:3] + WRITE_OPS, sample, seed, patch, None))
     # the same rows after an authenticated peer on ANOTHER connection has accessed the same attribute (two clients)
     hperms = sample if ctx.quick else sorted(set(sample) | set(range(0, 256, 3)))
     for sec in ("plain", "enc"):
